@@ -15,8 +15,8 @@
    SETTINGS frame that is still waiting in sc.reader cannot bind the sender yet. *)
 From Coq Require Import List NArith ZArith Bool.
 From H2V Require Import Base.Bytes Base.MachineInt Base.Result Impl.Hpack Impl.ServerConn Impl.ServerInst
-  Proofs.SrvBase Spec.FlowLedger Proofs.SrvFlowLedger Proofs.SrvFlowDefs
-  Proofs.SrvFlowSafeC Proofs.SrvFlowEs Proofs.SrvFlowStall Proofs.SrvFlowAck Proofs.SrvFlowDone
+  Proofs.SrvBase Spec.FlowLedger Proofs.SrvFlowLedger Proofs.SrvFlowDefs Proofs.SrvFlowEff
+  Proofs.SrvFlowSafeC Proofs.SrvFlowEs Proofs.SrvFlowStall Proofs.SrvFlowAck Proofs.SrvFlowDone Proofs.SrvFlowGrant
   Proofs.SrvFlowExamples.
 Import ListNotations.
 Local Open Scope N_scope.
@@ -118,6 +118,35 @@ Theorem C06_send_data_completes : forall (hstate : Type) (c : sconn hstate) s,
 Proof. exact send_data_completes. Qed.
 Print Assumptions C06_send_data_completes.
 
+(* completion, one grant at a time: when the stream loop handles a WINDOW_UPDATE for a stream whose buffered
+   response is waiting, it sends the next q = min(left, stream window + increment, connection window) bytes in that
+   same step; if that is all of it the stream ends with one END_STREAM and leaves the table, otherwise it stays
+   blocked with the rest. By induction on the peer's grants a single buffered response therefore completes as soon
+   as the grants cover it. (For several streams sharing the connection window, for connection WINDOW_UPDATE /
+   SETTINGS grants and for streamed bodies the same follows from C06_no_stall and C06_send_data_buffered; it has not
+   been spelled out as one theorem.) *)
+Theorem C06_stream_grant_resumes : forall (hstate : Type) (dec_field : hstate -> N -> bytes -> dec_res hstate)
+    (enc_set_max : hstate -> N -> hstate) cfg (c : sconn hstate) fr s,
+  sc_sl_done c = false -> sc_wl_dead c = false -> NoDup (map st_id (sc_strms c)) ->
+  sf_kind fr = KWinUpd -> sf_sid fr <> 0 -> sf_sid fr <= sc_lastID c ->
+  strms_search (sc_strms c) (sf_sid fr) = Some s -> blocked_buffered s ->
+  sf_inc fr <> 0 -> (st_window s + Z.of_N (sf_inc fr) <= MAXWIN)%Z ->
+  let w := (st_window s + Z.of_N (sf_inc fr))%Z in
+  let q := Z.to_N (Z.max 0 (Z.min (Z.of_N (len (st_pending s))) (Z.min w (sc_clientWindow c)))) in
+  let c' := fst (sl_frame dec_field enc_set_max cfg c fr) in
+  exists frames rest,
+    sc_out c' = rest ++ rev (frames_out (sf_sid fr) frames) ++ sc_out c /\ Forall quiet_out rest /\
+    concat (map snd frames) = takeN q (st_pending s) /\
+    Forall (fun f => 0 < len (snd f) <= 16384) frames /\
+    sc_clientWindow c' = (sc_clientWindow c - Z.of_N q)%Z /\
+    (if q =? len (st_pending s)
+     then es_shape frames true /\ strms_search (sc_strms c') (sf_sid fr) = None
+     else es_shape frames false /\
+          exists s', strms_search (sc_strms c') (sf_sid fr) = Some s' /\ blocked_buffered s' /\
+                     st_pending s' = dropN q (st_pending s) /\ st_window s' = (w - Z.of_N q)%Z).
+Proof. exact stream_grant_resumes. Qed.
+Print Assumptions C06_stream_grant_resumes.
+
 (* ---------- examples (the instance with the real HPACK model) ---------- *)
 
 (* the peer lowers INITIAL_WINDOW_SIZE to 10 while the handler runs, grants 5, lowers it to 0 (window -10),
@@ -193,4 +222,19 @@ Proof.
   rewrite E. cbn [lvalid]. intros (_ & _ & A & _). cbn [lallowed lstep ledger0 l_strm l_init l_conn] in A.
   unfold strm_upd in A. cbn [N.eqb Pos.eqb] in A. destruct A as (w & Hw & [X|(_ & _ & X)]); [discriminate|].
   inversion Hw; subst. unfold DEFAULT_WINDOW in X. apply Z.leb_le in X. discriminate.
+Qed.
+
+(* the blocked stream again: WINDOW_UPDATE(1, 5) lets 5 of the 20 bytes out, WINDOW_UPDATE(1, 100) all of them *)
+Example C06_stream_grant_resumes_example :
+  let c := srv_run ex_cfg ex_blocked in
+  sc_sl_done c = false /\ sc_wl_dead c = false /\ NoDup (map st_id (sc_strms c)) /\
+  (exists s, strms_search (sc_strms c) 1 = Some s /\ blocked_buffered s /\ len (st_pending s) = 20 /\ st_window s = 0%Z) /\
+  map brief (sc_out (fst (sl_frame srv_dec_field set_max_table_size ex_cfg c (fWinUpd 1 5)))) = BD 1 false 5 :: map brief (sc_out c) /\
+  map brief (sc_out (fst (sl_frame srv_dec_field set_max_table_size ex_cfg c (fWinUpd 1 100)))) = BRel 1 :: BD 1 true 20 :: map brief (sc_out c).
+Proof.
+  cbv zeta. split; [vm_compute; reflexivity|]. split; [vm_compute; reflexivity|].
+  split; [vm_compute; repeat constructor; intros []|].
+  split; [|split; vm_compute; reflexivity].
+  eexists. split; [vm_compute; reflexivity|]. split; [|split; vm_compute; reflexivity].
+  unfold blocked_buffered. vm_compute. repeat split. discriminate.
 Qed.
